@@ -68,7 +68,7 @@ def build_and_dump(ctx):
 
 
 SCHED_TRX_C = os.path.join(cbuild.TRXCON, "src/sched_trx.c")
-LOOKUP_FUNCS = ("l1sched_pull_burst", "l1sched_handle_rx_burst")
+LOOKUP_FUNCS = ("subst_frame_loss", "l1sched_pull_burst", "l1sched_handle_rx_burst")
 
 
 def extract_lookup():
@@ -79,9 +79,12 @@ def extract_lookup():
 		lines = f.read().split("\n")
 	out = []
 	for name in LOOKUP_FUNCS:
-		start = next((i for i, l in enumerate(lines) if re.match(r"^(void|int)\s+%s\s*\(" % name, l)), None)
+		start = next((i for i, l in enumerate(lines) if re.match(r"^(static\s+)?(void|int)\s+%s\s*\(" % name, l)), None)
 		if start is None:
+			if name == "subst_frame_loss":
+				continue        # the lost-frame part is then left out (the driver's stand-in returns 0)
 			return None
+
 		end = next((i for i in range(start, len(lines)) if lines[i].startswith("}")), None)
 		if end is None:
 			return None
@@ -99,7 +102,10 @@ def lookup_dump(ctx):
 	try:
 		tu = os.path.join(bd.path, "sched_lookup_tu.c")
 		with open(tu, "w") as f:
-			f.write("/* generated: function text from %s */\n#define LOOKUP_PART_1\n#include \"sched_lookup_main.c\"\n#undef LOOKUP_PART_1\n" % SCHED_TRX_C)
+			f.write("/* generated: function text from %s */\n" % SCHED_TRX_C)
+			if "subst_frame_loss(struct" in text.split("l1sched_pull_burst")[0]:
+				f.write("#define WITH_SUBST_FRAME_LOSS 1\n")
+			f.write("#define LOOKUP_PART_1\n#include \"sched_lookup_main.c\"\n#undef LOOKUP_PART_1\n")
 			f.write(text + "\n#define LOOKUP_PART_2\n#include \"sched_lookup_main.c\"\n")
 		try:
 			binary = cbuild.compile_link(bd, "sched_lookup_drv", [tu, os.path.join(cbuild.TRXCON, "src/sched_mframe.c"),
@@ -121,6 +127,9 @@ def lookup_dump(ctx):
 		p = l.split()
 		if p and p[0] in ("u", "d"):
 			res.append((p[0], int(p[1]), int(p[2]), int(p[3]), int(p[4]), int(p[5])))
+		elif p and p[0] == "l":
+			calls = [tuple(int(x) for x in c.split("/")) for c in p[7:]]
+			res.append(("l", int(p[1]), int(p[2]), int(p[3]), int(p[4]), int(p[5]), calls))
 	return res
 
 
@@ -130,7 +139,35 @@ def check_lookup(ctx, layouts):
 	res = lookup_dump(ctx)
 	if res is None:
 		return
-	for (d, config, tn, fn, chan, bid) in res:
+	H = 2715648
+	for rec in res:
+		if rec[0] != "l":
+			continue
+		(_, config, tn, fn1, fn2, rc, calls) = rec
+		L = layouts.get((config, tn))
+		if not L or not L["frames"]:
+			continue
+		per = L["period"]
+		chan = L["frames"][fn1 % per][0]
+		want = []
+		f = (fn1 + 1) % H
+		while f != fn2:
+			if L["frames"][f % per][0] == chan:
+				want.append((f, chan, L["frames"][f % per][1]))
+			f = (f + 1) % H
+		want.append((fn2, chan, L["frames"][fn2 % per][1]))
+		ctx.count("scheduler_lost_frame_cases_checked")
+		ctx.seen(hash(("loss", config, tn, fn1, fn2)))
+		if rc != 0 or calls != want:
+			ctx.violation("lookup", {"config": config, "tn": tn, "burst_at": fn1, "next_burst_at": fn2, "period": per, "rc": rc,
+				"handler_calls": calls[:12], "layout_says": want[:12]},
+				what = "trxcon substitutes lost frames %d..%d of channel %d with other (frame, channel, burst id) than the layout's "
+					"frames[fn mod %d] give" % ((fn1 + 1) % H, (fn2 - 1) % H, chan, per))
+			return
+	for rec in res:
+		if rec[0] == "l":
+			continue
+		(d, config, tn, fn, chan, bid) = rec
 		L = layouts.get((config, tn))
 		if not L or not L["frames"]:
 			continue
